@@ -55,7 +55,10 @@ class Backfilling(TMGRSchedulingComponent):
         # pilots just got added.  If we did not have any pilot before, we might
         # have tasks in the wait queue waiting -- now is a good time to take
         # care of those!
-        with self._wait_lock:
+        # lock order as everywhere else in the scheduler: pilots, then wait
+        # pool (the work thread holds the pilots lock when it takes the wait
+        # pool lock - the inverse order here can deadlock the two threads)
+        with self._pilots_lock, self._wait_lock:
 
             # initialize custom data for the pilot
             for pid in pids:
